@@ -5,7 +5,10 @@ import (
 	"crypto"
 	"crypto/ecdsa"
 	"crypto/ed25519"
+	"crypto/elliptic"
+	"crypto/rand"
 	"crypto/rsa"
+	"crypto/sha512"
 	"encoding/base64"
 	"encoding/binary"
 	"fmt"
@@ -38,6 +41,43 @@ type keyioCase struct {
 	TTL     uint32
 	Incep   uint32
 	Expir   uint32
+	Steer   int // library-made ECDSA keys only: 0 = random key; n > 0 = Generate is fed the n-th scalar of shortCoord (mod its length)
+}
+
+// shortCoord lists scalars whose public point has two (or more) leading zero octets in X or in Y -
+// about one key in 32768, so DNSKEY.Generate on its own practically never shows how such a
+// coordinate is encoded. They were found by a plain search (ScalarBaseMult over ctr = 0..400000)
+// and are given as the counter: d = (SHA-384("c17-short-coordinate/<curve>/<ctr>") mod (n-1)) + 1.
+// The check verifies the "short coordinate" property of each with the standard library before use.
+var shortCoord = map[uint8][]uint64{
+	13: {7594, 238755, 20196, 259499, 36601, 327307},   // P-256: X, Y, X, Y, X, Y short
+	14: {36805, 76467, 162592, 197613, 168949, 205437}, // P-384: X, Y, X, Y, X, Y short
+}
+
+func shortScalar(alg uint8, ctr uint64) (*big.Int, int) {
+	curve, name, size := elliptic.P256(), "P-256", 32
+	if alg == 14 {
+		curve, name, size = elliptic.P384(), "P-384", 48
+	}
+	h := sha512.Sum384([]byte(fmt.Sprintf("c17-short-coordinate/%s/%d", name, ctr)))
+	d := new(big.Int).SetBytes(h[:])
+	d.Mod(d, new(big.Int).Sub(curve.Params().N, big.NewInt(1)))
+	return d.Add(d, big.NewInt(1)), size
+}
+
+// steeredReader stands in for crypto/rand.Reader while DNSKEY.Generate runs: every multi-octet
+// read returns the chosen scalar (big-endian, left-padded), so the generated private key is
+// that scalar. Single-octet reads (crypto/internal/randutil.MaybeReadByte) get a zero.
+type steeredReader struct{ d []byte }
+
+func (r steeredReader) Read(p []byte) (int, error) {
+	for i := range p {
+		p[i] = 0
+	}
+	if len(p) >= len(r.d) {
+		copy(p[len(p)-len(r.d):], r.d)
+	}
+	return len(p), nil
 }
 
 type cachedKey struct {
@@ -54,8 +94,20 @@ var (
 // libGenerate runs DNSKEY.Generate; RSA keys are generated once per (algorithm, bits, slot) and
 // process. Key material is random (crypto/rand inside the library); no decision depends on it,
 // and every error message carries the private key text.
-func libGenerate(k *dns.DNSKEY, bits, slot int) (crypto.PrivateKey, error) {
+func libGenerate(k *dns.DNSKEY, bits, slot, steer int) (crypto.PrivateKey, error) {
 	isRSA := k.Algorithm == 5 || k.Algorithm == 7 || k.Algorithm == 8 || k.Algorithm == 10
+	if tab := shortCoord[k.Algorithm]; steer > 0 && len(tab) > 0 {
+		// the harness owns the entropy source for the duration of this call (nothing else runs in
+		// this process meanwhile: the sub-checks of this package are sequential)
+		d, size := shortScalar(k.Algorithm, tab[(steer-1)%len(tab)])
+		buf := make([]byte, size)
+		d.FillBytes(buf)
+		old := rand.Reader
+		rand.Reader = steeredReader{buf}
+		p, err := k.Generate(bits)
+		rand.Reader = old
+		return p, err
+	}
 	if !isRSA {
 		return k.Generate(bits)
 	}
@@ -269,8 +321,20 @@ func checkKeyIO(c keyioCase) (err error) {
 		k.PublicKey = base64.StdEncoding.EncodeToString(oct)
 		txt = refBINDText(c.Alg, priv)
 	} else {
-		if priv, err = libGenerate(k, c.Bits, c.Slot); err != nil {
+		if priv, err = libGenerate(k, c.Bits, c.Slot, c.Steer); err != nil {
 			return pbt.Errf("Generate(%d) for algorithm %d: %v", c.Bits, c.Alg, err)
+		}
+		if e, ok := priv.(*ecdsa.PrivateKey); ok {
+			size := (e.Curve.Params().BitSize + 7) / 8
+			zx, zy := size-len(e.X.Bytes()), size-len(e.Y.Bytes())
+			pbt.Class(fmt.Sprintf("ecdsa-leading-zero-octets(X or Y)=%d", min(max(zx, zy), 2)))
+			if c.Steer > 0 {
+				if want, _ := shortScalar(c.Alg, shortCoord[c.Alg][(c.Steer-1)%len(shortCoord[c.Alg])]); e.D.Cmp(want) == 0 {
+					pbt.Class("generate-steered")
+				} else {
+					pbt.Class("generate-steering-ineffective") // Generate drew its entropy elsewhere: the key is an ordinary random one
+				}
+			}
 		}
 		txt = k.PrivateKeyString(priv)
 	}
@@ -420,6 +484,9 @@ func genKeyIO(t *rapid.T) keyioCase {
 	c.RefMade = rapid.IntRange(0, 2).Draw(t, "refmade") == 0
 	if c.RefMade {
 		c.Bits = a.bits
+	}
+	if !c.RefMade && len(shortCoord[c.Alg]) > 0 && rapid.IntRange(0, 2).Draw(t, "steer") == 0 {
+		c.Steer = 1 + rapid.IntRange(0, len(shortCoord[c.Alg])-1).Draw(t, "steeridx")
 	}
 	// seeds with leading zero octets give private scalars with leading zeros (fixed-width encodings)
 	c.Seed = rapid.SliceOfN(rapid.Byte(), 1, 48).Draw(t, "seed")
